@@ -13,6 +13,8 @@ from .. import sched as SC
 THEOREMS = ["C16_measure", "inv_init", "inv_step", "inv_run", "C16_terminal", "C16_joined", "C16_result", "C16_bound",
             "C16_schedule_independent", "C16_sorted", "D16_old_shape_deadlock"]
 
+QUERY_TIMEOUT_S = 15
+
 OPMAP = {"get_nowait": "top", "empty": "top", "get": "get", "task_done": "taskdone"}
 
 
@@ -204,6 +206,13 @@ def run(ck):
     import lazrs  # noqa: F401  (the backend double)
     nq = 12 if q else 150
     saved_session = lc.requests_retry_session
+    saved_init = lc.HttpFetcherThread.__init__
+
+    def daemon_init(self, *a, **k):
+        saved_init(self, *a, **k)
+        self.daemon = True          # harness only: a leaked worker must not hang the interpreter at exit
+    lc.HttpFetcherThread.__init__ = daemon_init
+    hung = False
     try:
         for qi in range(nq):
             t = C.gen_tree(ck.rng, depth=ck.rng.randrange(1, 4), p_child=0.6)
@@ -236,11 +245,22 @@ def run(ck):
                 _d, _f, delay=lambda off, _hi=_hi: time.sleep(max(0.0, 0.002 * (1.0 - off / (_hi + 1.0)))))
             before = {th.ident for th in threading.enumerate()}
             rd = CopcReader(lc.HttpRangeStream("http://verif.invalid/f.copc.laz"), http_num_threads=workers, _http_strategy=strategy)
-            try:
-                got = rd.query(bounds=box, level=level)
-                exc = None
-            except Exception as e:
-                got, exc = None, e
+            box_ = {}
+
+            def do_query():
+                try:
+                    box_["got"] = rd.query(bounds=box, level=level)
+                except Exception as e:
+                    box_["exc"] = e
+            qt = threading.Thread(target=do_query, daemon=True)
+            qt.start()
+            qt.join(QUERY_TIMEOUT_S)
+            if qt.is_alive():
+                ck.fail(f"the HTTP query neither returned nor raised within {QUERY_TIMEOUT_S} s ({strategy} strategy, {workers} workers, "
+                        f"{len(real_ranges)} ranges, failing requests {fails})", inp)
+                hung = True
+                continue
+            got, exc = box_.get("got"), box_.get("exc")
             left = [th for th in threading.enumerate() if th.ident not in before and th.is_alive()]
             if left:
                 time.sleep(0.05)
@@ -256,6 +276,7 @@ def run(ck):
                 ck.fail("HTTP query returns different records than the local-file query", inp)
     finally:
         lc.requests_retry_session = saved_session
+        lc.HttpFetcherThread.__init__ = saved_init
     # ------------------------------------------------------------------ model vs implementation
     out = ck.driver(lines)
     bad = None
